@@ -48,6 +48,20 @@ def timing_program(rng, nroots=None, depth=0):
                         {'op': 'sleep', 'd': rng.choice([0.5, 1, 2])},
                         {'op': 'open', 'kind': 'until_d', 'd': 1, 'catch': True}, {'op': 'await_c', 'j': j, 'c': ['inst']},
                         {'op': 'leave'}]
+            elif r < 0.58:
+                # ONE condition object used twice: awaited (or watched by an until-block that ends first) before its
+                # date, then watched by an until-block again - before, at or after the date
+                j = rng.randint(4, 6)
+                c = [rng.choice(['ge', 'ge', 'eq']), round(start + rng.choice(DURS) * rng.randint(1, 4), 6)]
+                out += [{'op': 'mkc', 'j': j, 'c': c}]
+                if rng.random() < 0.5:
+                    out += [{'op': 'await_c', 'j': j, 'c': ['inst']}]
+                else:
+                    out += [{'op': 'open', 'kind': 'until_c', 'j': j, 'c': ['inst'], 'catch': True},
+                            {'op': 'sleep', 'd': rng.choice([0.5, 1])}, {'op': 'leave'}]
+                out += [{'op': 'sleep', 'd': rng.choice([0.5, 1, 2])}] * rng.randint(0, 1)
+                out += [{'op': 'open', 'kind': 'until_c', 'j': j, 'c': ['inst'], 'catch': True},
+                        {'op': 'sleep', 'd': rng.choice([1, 2])}, {'op': 'leave'}]
             elif r < 0.6:
                 out.append({'op': 'instant'})
             elif r < 0.8 and lvl < 2:
